@@ -189,7 +189,7 @@ Lemma cell_group o h : forall segs st,
   len (all_items segs) < 4294967296 -> 2 * r_nfr st <= 2147483648 ->
   Forall (pseg_ok TopoEntity_Cell (2 * r_nfr st)) segs ->
   topo_req (h_topo h) 4 6 (all_items segs) ->
-  add_accepts (fun hs _ => mesh_add_cell o (r_faces st) hs) (all_items segs) ->
+  add_accepts (fun hs _ => mesh_add_cell o (r_edges st) (r_faces st) hs) (all_items segs) ->
   run_valid o h st (poly_chunks TopoEntity_Cell (r_ncr st) segs) /\
   run_st st (poly_chunks TopoEntity_Cell (r_ncr st) segs) = add_cells (len (all_items segs)) (all_items segs) st.
 Proof.
